@@ -65,6 +65,20 @@ Definition rctx (x : nat * nat * nat) : nat := snd x.
 Definition like_family (u : string) : bool := in_strs u ["LIKE"; "ILIKE"; "SIMILAR TO"].
 Definition is_null_op (u : string) : bool := in_strs u ["IS NULL"; "IS NOT NULL"].
 
+(* isArrayTypeName: the type string ends with "[]" *)
+Fixpoint is_array_type (ty : string) : bool :=
+  match ty with
+  | String a (String b EmptyString) => Ascii.eqb a "["%char && Ascii.eqb b "]"%char
+  | String _ r => is_array_type r
+  | EmptyString => false
+  end.
+
+Definition is_gcast (g : gexpr) : bool := match g with GCast _ _ => true | _ => false end.
+
+(* IsNiladicFunctionName *)
+Definition is_niladic (n : string) : bool :=
+  existsb (String.eqb (upper n)) ["CURRENT_DATE"; "CURRENT_TIME"; "CURRENT_TIMESTAMP"; "LOCALTIME"; "LOCALTIMESTAMP"].
+
 (* exprPrec *)
 Definition go_prec (e : gexpr) : nat :=
   match e with
@@ -73,6 +87,7 @@ Definition go_prec (e : gexpr) : nat :=
       if neg && negb (like_family u || is_null_op u) then p_not else lvl (binop_prec u)
   | GUnary op _ => if N.eqb op unop_not then p_not else p_unary
   | GBetween _ _ _ _ | GIn _ _ _ _ | GAnyAll _ _ _ _ => p_cmp
+  | GCast a ty => if is_gcast a || is_array_type ty then p_postfix else p_primary   (* written inner::type *)
   | _ => p_primary
   end.
 
@@ -248,6 +263,8 @@ Fixpoint print_expr (pf : pflags) (e : gexpr) {struct e} : option (list token) :
       else if N.eqb op 1 then ob (par pf (go_prec a) p_postfix (print_expr pf a)) (fun ts => Some (Tk TyMinus "-" :: ts))
       else None
   | GFunc n args d None [] [] None =>
+      if is_niladic n && negb d && match args with [] => true | _ => false end then Some [Tk TyIdent n]   (* CURRENT_DATE *)
+      else
       ob (all_some (map (print_expr pf) args)) (fun ats =>
       Some (Tk TyIdent n :: tLP :: (if d then [Tk TyDistinct "DISTINCT"] else []) ++ sep_by [tComma] ats ++ [tRP]))
   | GFunc _ _ _ _ _ _ _ => None
@@ -261,9 +278,12 @@ Fixpoint print_expr (pf : pflags) (e : gexpr) {struct e} : option (list token) :
       ob (match els with Some a => ob (print_expr pf a) (fun x => Some (Tk TyElse "ELSE" :: x)) | None => Some [] end) (fun et =>
       Some (Tk TyCase "CASE" :: vt ++ List.concat wts ++ et ++ [Tk TyEnd "END"]))))
   | GCast a ty =>
+      (* a cast of a cast: inner::type (the chain is written CAST(x AS t)::u::v); a cast to an array type x::t[] is not
+         modelled ([type_tokens] has no brackets) *)
       ob (print_expr pf a) (fun ats =>
       ob (type_tokens ty) (fun tts =>
-      Some (Tk TyCast "CAST" :: tLP :: ats ++ Tk TyAs "AS" :: tts ++ [tRP])))
+      if is_gcast a then Some (ats ++ Tk TyDoubleColon "::" :: tts)
+      else Some (Tk TyCast "CAST" :: tLP :: ats ++ Tk TyAs "AS" :: tts ++ [tRP])))
   | GIn a items None neg =>
       ob (par pf (go_prec a) p_concat (print_expr pf a)) (fun ats =>
       ob (all_some (map (print_expr pf) items)) (fun its =>
@@ -407,7 +427,8 @@ Definition has_char (x : ascii) (s : string) : bool := negb (all_chars (fun c =>
 
 (* ------------------------------------------------------------------------------------------------ *)
 (* the reference expression whose rendering the printer writes: `e::t` is written CAST(e AS t), an identifier is
-   quoted exactly when safeIdentifier says so *)
+   quoted exactly when safeIdentifier says so; a cast of a cast is written in the postfix form inner::t *)
+Definition is_cast_m (e : mexpr) : bool := match e with MCastOp _ _ | MCast _ _ => true | _ => false end.
 Fixpoint norm (pf : pflags) (e : mexpr) : mexpr :=
   match e with
   | MIdent _ n => MIdent (needs_quote pf n) n
@@ -419,11 +440,11 @@ Fixpoint norm (pf : pflags) (e : mexpr) : mexpr :=
   | MIn a neg items => MIn (norm pf a) neg (map (norm pf) items)
   | MBetween a neg lo hi => MBetween (norm pf a) neg (norm pf lo) (norm pf hi)
   | MLike a neg ci p => MLike (norm pf a) neg ci (norm pf p)
-  | MCastOp a t => MCast (norm pf a) t
+  | MCastOp a t => if is_cast_m a then MCastOp (norm pf a) t else MCast (norm pf a) t
   | MFunc n d args => MFunc n d (map (norm pf) args)
   | MCase s whens els =>
       MCase (option_map (norm pf) s) (map (fun cv => (norm pf (fst cv), norm pf (snd cv))) whens) (option_map (norm pf) els)
-  | MCast a t => MCast (norm pf a) t
+  | MCast a t => if is_cast_m a then MCastOp (norm pf a) t else MCast (norm pf a) t
   | MTuple es => MTuple (map (norm pf) es)
   end.
 
@@ -443,7 +464,9 @@ Fixpoint printable (pf : pflags) (e : mexpr) : bool :=
   | MIn a _ items => printable pf a && forallb (printable pf) items
   | MBetween a _ lo hi => printable pf a && printable pf lo && printable pf hi
   | MLike a _ _ p => printable pf a && printable pf p
-  | MCastOp a t | MCast a t => printable pf a && all_chars type_char (tname t)
+  | MCastOp a t | MCast a t =>
+      printable pf a && all_chars type_char (tname t)
+      && forallb (fun x => all_chars type_char x && negb (String.eqb x "")) (targs t)
   | MFunc _ _ args => forallb (printable pf) args
   | MCase s whens els =>
       match s with Some a => printable pf a | None => true end
